@@ -108,26 +108,38 @@ impl<'a, P: for<'p> Protocol<'p>> DemoWriter<'a, P> {
             Some(last_keyframe) => tick - last_keyframe > 250,
         };
 
-        // Build snap.
+        // Build snap. A refused item must not stay in the builder.
         for (item, id) in items {
-            self.builder
-                .add_item(item.obj_type_id(), id, item.encode())?;
+            if let Err(err) = self
+                .builder
+                .add_item(item.obj_type_id(), id, item.encode())
+            {
+                self.builder = self.snap.clone().recycle();
+                return Err(err.into());
+            }
         }
-
-        let old_snap = mem::take(&mut self.snap);
         let new_snap = mem::take(&mut self.builder).finish();
+
+        // Serialize before writing anything, so that a snap that does not
+        // fit leaves both the demo and the writer as they were.
+        self.buf.clear();
+        let packed = if is_keyframe {
+            let keys = &mut self.i32_buf;
+            with_packer(&mut self.buf, |p| new_snap.write(keys, p)).map(|_| ())
+        } else {
+            self.delta.create(&self.snap, &new_snap);
+            let delta = &self.delta;
+            with_packer(&mut self.buf, |p| delta.write(P::obj_size, p)).map(|_| ())
+        };
+        if packed.is_err() {
+            self.builder = self.snap.clone().recycle();
+            return Err(WriteError::TooLargeSnap);
+        }
 
         self.inner.write_tick(is_keyframe, tick)?;
         if is_keyframe {
-            let keys = &mut self.i32_buf;
-            with_packer(&mut self.buf, |p| new_snap.write(keys, p))
-                .map_err(|_| WriteError::TooLargeSnap)?;
             self.inner.write_snapshot(&self.buf)?;
         } else {
-            self.delta.create(&old_snap, &new_snap);
-            let delta = &self.delta;
-            with_packer(&mut self.buf, |p| delta.write(P::obj_size, p))
-                .map_err(|_| WriteError::TooLargeSnap)?;
             self.inner.write_snapshot_delta(&self.buf)?;
         }
 
@@ -137,7 +149,6 @@ impl<'a, P: for<'p> Protocol<'p>> DemoWriter<'a, P> {
         self.snap = new_snap;
         // Extended item types must keep their type ID from one snap to the
         // next, so the next builder starts from the snap just written.
-        drop(old_snap);
         self.builder = self.snap.clone().recycle();
         self.buf.clear();
         self.last_tick = tick;
@@ -147,6 +158,7 @@ impl<'a, P: for<'p> Protocol<'p>> DemoWriter<'a, P> {
         Ok(())
     }
     pub fn write_msg(&mut self, msg: &<P as Protocol<'_>>::Game) -> Result<(), WriteError> {
+        self.buf.clear();
         with_packer(&mut self.buf, |p| msg.encode(p)).map_err(|_| WriteError::TooLongNetMsg)?;
         self.inner.write_message(self.buf.as_slice())?;
         self.buf.clear();
